@@ -257,8 +257,6 @@ ASSUME \A p \in PIDs : \A k \in DOMAIN UnitsOf(p) : (~Active("C20_label") /\ ~Ac
 UserEnts(u) == {e \in Ids(u) : KindT[u][e] = "E"}
 \* a static property is exported either at the top level of the entity record or inside its control_behavior
 PropIn(r, pr) == pr.k \in DOMAIN r /\ (IF pr.k = "direction" THEN r[pr.k] = pr.v.v ELSE r[pr.k] = (pr.v.v # 0))
-\* Factorio's defaults of the boolean properties used by the corpus: a property whose value IS the default may be left out of the export
-PropDefaults == [send_to_train |-> TRUE, read_from_train |-> FALSE, select_max |-> TRUE, always_on |-> FALSE, use_colors |-> FALSE]
 IsDefault(pr) == pr.k \in DOMAIN PropDefaults /\ PropDefaults[pr.k] = (pr.v.v # 0)
 Absent(ent, pr) == pr.k \notin DOMAIN ent /\ pr.k \notin DOMAIN Get(ent, "control_behavior", <<>>)
 PropOK(ent, pr) == PropIn(ent, pr) \/ PropIn(Get(ent, "control_behavior", <<>>), pr) \/ (IsDefault(pr) /\ Absent(ent, pr))
